@@ -88,6 +88,8 @@ _ALONE = {}
 
 
 def judge_case(case):
+    if case.get("kind") == "hexlike":
+        return judge_value(case["str"]) or judge_hexlike(case["str"])
     if "str" in case:
         return judge_value(case["str"])
     seq = [_dec(e) for e in case["seq"]]
@@ -106,6 +108,40 @@ def chunk_strings(job):
             vs = judge_value(s)
             if vs and len(out) < 8:
                 out += vs
+    return n, out
+
+
+HEXCHARS = ["0", "f", "F", "g", "-", "+", " ", "_", "9"]
+
+
+def judge_hexlike(s):
+    """A '#...' string is a valid colour exactly when, after trimming whitespace, it is #rgb or #rrggbb."""
+    from cm_colors import Color
+
+    t = s.strip()
+    if not t.startswith("#"):
+        return []
+    body = t[1:]
+    is_hex = len(body) in (3, 6) and all(ch in "0123456789abcdefABCDEF" for ch in body)
+    c = Color(s)
+    if c.is_valid and not is_hex:
+        return [dict(sig="invalid_input/non_hex_accepted", case={"kind": "hexlike", "str": s}, observed=repr(c.rgb),
+                     msg="Color(%r) is accepted as %r although it is not a hex colour" % (s, c.rgb))]
+    return []
+
+
+def chunk_hexlike(job):
+    """'#' + every string of length 1..6 over HEXCHARS starting with `first` (and the same without '#')."""
+    first, maxlen = job
+    out, n = [], 0
+    for k in range(0, maxlen):
+        for tail in itertools.product(HEXCHARS, repeat=k):
+            body = first + "".join(tail)
+            for s in ("#" + body, body):
+                n += 1
+                vs = judge_value(s) or judge_hexlike(s)
+                if vs and len(out) < 8:
+                    out += vs
     return n, out
 
 
@@ -152,6 +188,13 @@ def run(ctx):
     ctx.sub("strings", states=n + k, transitions=n + k, evaluations=n + k, traces=n + k, distinct_nontrivial=n + k, exhaustive=True, max_tokens=smax)
     ctx.sample({"subcheck": "string", "value": "rgb(255,%"})
     ctx.sample({"subcheck": "string", "value": "hsla(nan 0.5"})
+    hj = [(c, 6) for c in HEXCHARS]
+    hn = 0
+    for cnt, vs in ctx.pmap(chunk_hexlike, hj):
+        hn += cnt
+        ctx.add_violations(vs)
+    ctx.sub("hex_shaped_strings", states=hn, transitions=hn, evaluations=hn, traces=hn, distinct_nontrivial=hn, exhaustive=True, chars=HEXCHARS, max_length=6)
+    ctx.sample({"subcheck": "hex-shaped", "value": "#-f-f-f"})
     jobs = [((), 1)]
     for a in ELEMS:
         for b in ELEMS:
